@@ -607,13 +607,32 @@ where
     }
 
     // Given we are at the start of a line, count the number of spaces and/or tabs until the first character.
-    fn eat_indentation(&mut self) -> Result<IndentationLevel, LexicalError> {
+    // Returns the indentation level and the offset at which the indentation whitespace ends.
+    fn eat_indentation(&mut self) -> Result<(IndentationLevel, TextSize), LexicalError> {
         // Determine indentation:
         let mut spaces: u32 = 0;
         let mut tabs: u32 = 0;
         let mut tab_after_spaces = None;
+        // Indentation that precedes the first explicit line joining (backslash) of this line.
+        let mut continued: Option<(u32, u32, TextSize)> = None;
         loop {
             match self.window[0] {
+                Some('\\') if matches!(self.window[1], Some('\n' | '\r')) => {
+                    // Explicit line joining inside the indentation: the indentation of the
+                    // joined line is what precedes the first backslash (if anything does),
+                    // and a joined line that holds nothing else is a blank line.
+                    if continued.is_none() && (spaces != 0 || tabs != 0) {
+                        continued = Some((tabs, spaces, self.get_pos()));
+                    }
+                    self.next_char();
+                    self.next_char();
+                    if self.window[0].is_none() {
+                        return Err(LexicalError {
+                            error: LexicalErrorType::Eof,
+                            location: self.get_pos(),
+                        });
+                    }
+                }
                 Some(' ') => {
                     /*
                     if tabs != 0 {
@@ -647,6 +666,7 @@ where
                     spaces = 0;
                     tabs = 0;
                     tab_after_spaces = None;
+                    continued = None;
                 }
                 Some('\x0C') => {
                     // Form feed character!
@@ -668,10 +688,12 @@ where
                     spaces = 0;
                     tabs = 0;
                     tab_after_spaces = None;
+                    continued = None;
                 }
                 None => {
                     spaces = 0;
                     tabs = 0;
+                    continued = None;
                     break;
                 }
                 _ => {
@@ -687,7 +709,10 @@ where
             }
         }
 
-        Ok(IndentationLevel { tabs, spaces })
+        match continued {
+            Some((tabs, spaces, end)) => Ok((IndentationLevel { tabs, spaces }, end)),
+            None => Ok((IndentationLevel { tabs, spaces }, self.get_pos())),
+        }
     }
 
     #[cfg(rustpython_parser_verif)]
@@ -708,7 +733,7 @@ where
     fn handle_indentations(&mut self) -> Result<(), LexicalError> {
         #[cfg(rustpython_parser_verif)]
         self.verif_boundary();
-        let indentation_level = self.eat_indentation()?;
+        let (indentation_level, tok_pos) = self.eat_indentation()?;
 
         if self.nesting != 0 {
             return Ok(());
@@ -724,7 +749,6 @@ where
             Ordering::Greater => {
                 // New indentation level:
                 self.indentations.push(indentation_level);
-                let tok_pos = self.get_pos();
                 self.emit((
                     Tok::Indent,
                     TextRange::new(
